@@ -266,3 +266,43 @@ Proof.
   rewrite chunk_energy_total by (apply chunks_pos; lia).
   rewrite chunks_sum by lia. reflexivity.
 Qed.
+
+(* ---- edges of the cadence ---- *)
+Local Open Scope nat_scope.
+(* a period longer than the run samples nothing *)
+Lemma sample_times_none f T : T < f -> sample_times f T = [].
+Proof.
+  intros H. assert (L : length (sample_times f T) = 0).
+  { rewrite sample_times_length by lia. apply Nat.div_small. exact H. }
+  destruct (sample_times f T); [reflexivity|discriminate].
+Qed.
+
+(* period 1 samples after every step *)
+Lemma sample_times_every_step T : sample_times 1 T = seq 1 T.
+Proof.
+  unfold sample_times. induction T as [|T IH]; [reflexivity|].
+  rewrite seq_S, filter_app, IH. cbn [filter]. rewrite Nat.mod_1_r. reflexivity.
+Qed.
+
+(* the i-th sample (counting from 0) is taken after step (i+1) * f: the cadence in closed form *)
+Lemma sample_times_closed_form f T : 0 < f -> sample_times f T = map (fun i => (i + 1) * f) (seq 0 (T / f)).
+Proof.
+  intros Hf. unfold sample_times. induction T as [|T IH].
+  - rewrite Nat.div_0_l by lia. reflexivity.
+  - rewrite seq_S, filter_app, IH. cbn [filter]. change (1 + T) with (S T).
+    destruct (Nat.eqb_spec (S T mod f) 0) as [E|E].
+    + assert (Q : S T / f = S (T / f)).
+      { apply Nat.mod_divides in E; [|lia]. destruct E as [c Hc]. rewrite Hc.
+        rewrite Nat.mul_comm, Nat.div_mul by lia.
+        destruct c as [|c]; [lia|]. f_equal.
+        assert (T = c * f + (f - 1)) as -> by lia.
+        rewrite Nat.div_add_l by lia. rewrite Nat.div_small by lia. lia. }
+      rewrite Q, seq_S, map_app. cbn [map]. f_equal. f_equal.
+      apply Nat.mod_divides in E; [|lia]. destruct E as [c Hc].
+      assert (S T / f = c) by (rewrite Hc, Nat.mul_comm, Nat.div_mul; lia). lia.
+    + assert (Q : S T / f = T / f).
+      { pose proof (Nat.div_mod (S T) f ltac:(lia)) as D1. pose proof (Nat.div_mod T f ltac:(lia)) as D2.
+        pose proof (Nat.mod_upper_bound (S T) f ltac:(lia)). pose proof (Nat.mod_upper_bound T f ltac:(lia)).
+        nia. }
+      rewrite Q, app_nil_r. reflexivity.
+Qed.
